@@ -11,7 +11,7 @@ func init() {
 }
 
 type c06Ender struct {
-	closeN                   int
+	closeN                    int
 	eof, rderr, wrerr, cancel bool
 }
 
@@ -108,6 +108,15 @@ func c06Gen(r *Rand, tier string, scale int, emit func(Fields)) {
 				add(sc)
 			}
 		}
+	}
+	// 1b. every singleton while the foreground handler is blocked in a send (the server is not
+	//     reading, the out queue is full): nobody but the ender itself can notice
+	for _, e := range c06Singles {
+		sc := cfgOf(n)
+		c := c06Cycle(e, r)
+		c.hs, c.outN, c.outBy = 2, 40, 1
+		sc.cycles = []lcCycle{c}
+		add(sc)
 	}
 	// 2. every pairwise coincidence
 	for _, e := range c06Pairs() {
